@@ -73,7 +73,7 @@ def showPc : FPc → String
   | .idle => "idle" | .holding => "holding" | .exiting => "exiting" | .wantLock => "wantLock" | .done => "done"
 
 def showSub (u : Sub) : String :=
-  s!"[tag:{u.tag},j:{u.joinedAt},buf:{showNats (u.buf.map (·.val))},hand:{showNats (u.hand.toList.map (·.val))},del:{showNats (u.delivered.map (·.val))},canc:{u.cancelled},exit:{u.exitClosed},in:{u.inList},pc:{showPc u.pc},missed:{u.missed}]"
+  s!"[id:{u.id},tag:{u.tag},j:{u.joinedAt},buf:{showNats (u.buf.map (·.val))},hand:{showNats (u.hand.toList.map (·.val))},del:{showNats (u.delivered.map (·.val))},canc:{u.cancelled},exit:{u.exitClosed},in:{u.inList},pc:{showPc u.pc},missed:{u.missed}]"
 
 def showState (s : State) : String :=
   let bc := match s.bc with
